@@ -2,11 +2,13 @@ CONSTANT Mode = "rows"
 CONSTANT MaxSteps = 3
 CONSTANT MaxZero = 0
 CONSTANT RowCounts = {2, 3, 4}
+CONSTANT PadCounts = {}
 CONSTANT NGen = 8
 SPECIFICATION Spec
 INVARIANT TypeOK
 INVARIANT Consistent
 INVARIANT GramInvariant
 INVARIANT LawC10
+INVARIANT WidenLaw
 INVARIANT Export
 CHECK_DEADLOCK FALSE
